@@ -72,7 +72,8 @@ class C11:
         kind = rng.choice(("TSD", "TSD", "TSL"))
         if kind == "TSD":
             pool = rng.choice((3, 5, 9, 12, 17, 20))
-            w = ho.gen_tsd_writer(rng, 1, end, pool=pool, big=rng.random() < 0.15, mid=pool >= 9)
+            huge = rng.random() < 0.08
+            w = ho.gen_tsd_writer(rng, 1, end, pool=pool, big=rng.random() < 0.15, mid=pool >= 9 and not huge, huge=huge)
         else:
             w = coll.gen_writer(rng, 1, "TSL", end)
         w2 = permute_script(w, rng)
